@@ -246,6 +246,9 @@ func makeField(v reflect.Value, params fieldParameters) (encoder, error) {
 			} else if structType.Field(0).Name == "Present" {
 				// Open type or CHOICE type
 				present := int(v.Field(0).Int())
+				if present < 0 || present >= structType.NumField() {
+					return nil, fmt.Errorf("Present is out of range of struct field")
+				}
 				tempParams := parseFieldParameters(structType.Field(present).Tag.Get("ber"))
 				if present == 0 {
 					return nil, fmt.Errorf("CHOICE or OpenType present is 0(present's field number)")
